@@ -19,7 +19,7 @@ pub struct Knobs {
   pub kinds: Vec<String>,
   /// value classes enabled: scalar, matrix, record, tuple, set, table
   pub classes: Vec<String>,
-  /// weights: define, mdefine, assign, idx-assign, op-assign, idx-op-assign, field-assign, tuple-assign, destructure, read
+  /// weights: define, mdefine, assign, idx-assign, op-assign, idx-op-assign, field-assign, tuple-assign, destructure, read, map-assign
   pub weights: Vec<u32>,
   pub max_dim: usize,
 }
@@ -31,19 +31,22 @@ pub fn draw_knobs(rng: &mut Rng, profile: &str) -> Knobs {
   let len = match rng.below(10) { 0..=5 => 3 + rng.usize(10), 6..=8 => 12 + rng.usize(14), _ => 25 + rng.usize(16) };
   let fault_pm = match rng.below(5) { 0 => 0, 1 => 80, 2 => 150, 3 => 250, _ => 400 };
   let mut kinds = vec!["f64".to_string()];
+  // every element kind has its own generated kernels: all of them take part, a few per run
   for k in ["u8", "i64", "bool", "string", "u16", "i8"] { if rng.chance(1, 3) { kinds.push(k.to_string()); } }
+  for k in ["u32", "u64", "i16", "i32", "f32", "u128", "i128"] { if rng.chance(1, 5) { kinds.push(k.to_string()); } }
   let mut classes = vec![];
   if profile == "C04" {
     classes.push("matrix".to_string());
     if rng.chance(1, 2) { classes.push("scalar".to_string()); }
   } else {
     for c in ["scalar", "matrix", "record", "tuple", "set", "table"] { if rng.chance(3, 5) { classes.push(c.to_string()); } }
+    if rng.chance(1, 4) { classes.push("map".to_string()); }
     if classes.is_empty() { classes.push("scalar".to_string()); classes.push("matrix".to_string()); }
   }
   let mut weights: Vec<u32> = if profile == "C04" {
-    vec![2, 6, 2, 14, 4, 8, 0, 0, 0, 6]
+    vec![2, 6, 2, 14, 4, 8, 0, 0, 0, 6, 0]
   } else {
-    vec![6, 6, 6, 5, 4, 3, 4, 3, 3, 4]
+    vec![6, 6, 6, 5, 4, 3, 4, 3, 3, 4, 3]
   };
   // swarm: knock out or boost some operation kinds
   for w in weights.iter_mut() {
@@ -60,6 +63,7 @@ const STRS: [&str; 5] = ["a", "b", "hi", "zz", "mech"];
 pub fn gen_scalar(rng: &mut Rng, kind: &str) -> SV {
   match kind {
     "f64" => SV::f64(*rng.pick(&F64S)),
+    "f32" => SV::F32(canon_f32(*rng.pick(&F64S) as f32)),
     "bool" => SV::Bool(rng.chance(1, 2)),
     "string" => SV::Str(rng.pick(&STRS).to_string()),
     k => {
@@ -68,7 +72,7 @@ pub fn gen_scalar(rng: &mut Rng, kind: &str) -> SV {
       let cands: Vec<i128> = vec![0, 1, 2, 3, 7, 9, 100, hi, hi - 1, hi - 5, lo, lo + 1, -1, -5, 20];
       // negative literals are rendered as `-n<kind>`, i.e. the negation of n: the minimum of a signed
       // kind has no such spelling (n would saturate), so it is never generated as a literal
-      let ok: Vec<i128> = cands.into_iter().filter(|x| *x >= lo && *x <= hi && x.abs() < (1i128 << 62) && !(lo < 0 && *x == lo)).collect();
+      let ok: Vec<i128> = cands.into_iter().filter(|x| *x >= lo && *x <= hi && x.unsigned_abs() < (1u128 << 62) && !(lo < 0 && *x == lo)).collect();
       SV::Int(nk, *rng.pick(&ok))
     }
   }
@@ -85,7 +89,7 @@ fn gen_element(rng: &mut Rng, kind: &str) -> SV {
   }
 }
 
-fn literal_matrix_kind(kind: &str) -> bool { !NK::from_name(kind).map(|k| k.is_signed()).unwrap_or(false) }
+fn literal_matrix_kind(kind: &str) -> bool { kind != "f32" && !NK::from_name(kind).map(|k| k.is_signed()).unwrap_or(false) }
 
 pub fn gen_matrix(rng: &mut Rng, kind: &str, max_dim: usize) -> SV {
   let kind = if literal_matrix_kind(kind) { kind } else { "f64" };
@@ -122,6 +126,18 @@ pub fn gen_value(rng: &mut Rng, k: &Knobs, class: &str) -> SV {
       for _ in 0..(2 + rng.usize(3)) { let v = gen_scalar(rng, "f64"); if !els.contains(&v) { els.push(v); } }
       els.sort();
       SV::Set("f64".into(), els)
+    }
+    "map" => {
+      let string_keys = rng.chance(2, 3);
+      let vk = rng.pick(&["f64", "string", "bool", "u8"]).to_string();
+      let n = 1 + rng.usize(3);
+      let mut kv: Vec<(SV, SV)> = vec![];
+      for i in 0..n {
+        let key = if string_keys { SV::Str(["a", "b", "c"][i].to_string()) } else { SV::f64((i + 1) as f64) };
+        kv.push((key, gen_scalar(rng, &vk)));
+      }
+      kv.sort();
+      SV::Map(kv)
     }
     "table" => {
       let rows = 2 + rng.usize(2);
@@ -252,6 +268,7 @@ pub fn next_op(rng: &mut Rng, k: &Knobs, m: &Model) -> Op {
       6 => gen_field_assign(rng, k, m, fault),
       7 => gen_tuple_assign(rng, k, m, fault),
       8 => gen_destructure(rng, k, m, fault),
+      10 => gen_map_assign(rng, k, m, fault),
       _ => gen_read(rng, k, m, fault),
     };
     if let Some(op) = op { return op; }
@@ -271,7 +288,7 @@ fn gen_define(rng: &mut Rng, k: &Knobs, m: &Model, fault: bool) -> Op {
     // annotated path has its own save site), from another variable, from an expression
     return match rng.below(6) {
       0 | 1 => {
-        let ik = rng.pick(&["u8", "i64", "u16", "i8", "f64"]).to_string();
+        let ik = rng.pick(&["u8", "i64", "u16", "i8", "f64", "u32", "i32", "f32"]).to_string();
         if rng.chance(1, 2) { Op::Define { name, mutable, annot: Some(ik), e: Expr::Lit(SV::f64(*rng.pick(&[0.0, 1.0, 2.0, 7.0, 100.0]))) } }
         else { Op::Define { name, mutable, annot: Some(format!("[{}]:1,2", ik)), e: Expr::Lit(SV::Mat("f64".into(), 1, 2, vec![SV::f64(1.0), SV::f64(2.0)])) } }
       }
@@ -297,6 +314,7 @@ fn gen_define(rng: &mut Rng, k: &Knobs, m: &Model, fault: bool) -> Op {
       (SV::Record(f), 0) => Expr::Field(src, rng.pick(f).0.clone()),
       (SV::Table(_, c), 0) => Expr::Field(src, rng.pick(c).0.clone()),
       (SV::Tuple(el), 0) => Expr::TupElem(src, 1 + rng.usize(el.len())),
+      (SV::Map(kv), 0) if !kv.is_empty() => Expr::MapGet(src, rng.pick(kv).0.clone()),
       (SV::Mat(_, r, c, _), 0) => Expr::VarIdx(src, if rng.chance(1, 2) { Sub::One(Ix::S(1 + rng.usize(r * c) as i64)) } else { Sub::Two(Ix::S(1 + rng.usize(*r) as i64), Ix::S(1 + rng.usize(*c) as i64)) }),
       (v, 1) if v.is_scalar() || v.is_matrix() => {
         let ek = match v { SV::Mat(ek, ..) => ek.clone(), s => s.kind_tag() };
@@ -314,7 +332,7 @@ fn gen_define(rng: &mut Rng, k: &Knobs, m: &Model, fault: bool) -> Op {
   let class = rng.pick(&k.classes).clone();
   if choice == 9 && (class == "scalar" || class == "matrix") {
     // annotated define from an f64 literal: conversion at definition time
-    let ik = rng.pick(&["u8", "i64", "u16", "i8", "f64"]).to_string();
+    let ik = rng.pick(&["u8", "i64", "u16", "i8", "f64", "u32", "u64", "i16", "i32", "f32", "u128", "i128"]).to_string();
     let small = [0.0, 1.0, 2.0, 7.0, 100.0];
     if class == "scalar" {
       return Op::Define { name, mutable, annot: Some(ik), e: Expr::Lit(SV::f64(*rng.pick(&small))) };
@@ -469,6 +487,27 @@ fn gen_field_assign(rng: &mut Rng, k: &Knobs, m: &Model, fault: bool) -> Option<
   }
 }
 
+fn gen_map_assign(rng: &mut Rng, k: &Knobs, m: &Model, fault: bool) -> Option<Op> {
+  let (name, ft) = pick_target(rng, k, m, fault, |b| matches!(&b.v, SV::Map(kv) if !kv.is_empty()))?;
+  match m.store.get(&name).map(|b| b.v.clone()) {
+    Some(SV::Map(kv)) => {
+      let (k0, v0) = kv[0].clone();
+      let vkind = v0.kind_tag();
+      // an existing key (update) or a fresh one (insert)
+      let key = if rng.chance(1, 2) { rng.pick(&kv).0.clone() } else { match &k0 { SV::Str(_) => SV::Str(rng.pick(&["a", "b", "c", "d", "k"]).to_string()), _ => SV::f64((1 + rng.usize(6)) as f64) } };
+      if fault && !ft {
+        return Some(match rng.below(3) {
+          0 => Op::MapAssign { name, key, e: Expr::Lit(scalar_of_other_kind(rng, &vkind)) },
+          1 => Op::MapAssign { name, key: match &k0 { SV::Str(_) => SV::f64(1.0), _ => SV::Str("a".into()) }, e: Expr::Lit(gen_scalar(rng, &vkind)) },
+          _ => Op::MapAssign { name, key, e: failing_source(rng, k, m) },
+        });
+      }
+      Some(Op::MapAssign { name, key, e: scalar_source(rng, m, &vkind) })
+    }
+    _ => Some(Op::MapAssign { name, key: SV::Str("a".into()), e: Expr::Lit(gen_scalar(rng, "f64")) }),
+  }
+}
+
 fn gen_tuple_assign(rng: &mut Rng, k: &Knobs, m: &Model, fault: bool) -> Option<Op> {
   let (name, ft) = pick_target(rng, k, m, fault, |b| matches!(b.v, SV::Tuple(_)))?;
   match m.store.get(&name).map(|b| b.v.clone()) {
@@ -538,6 +577,7 @@ fn gen_read(rng: &mut Rng, k: &Knobs, m: &Model, fault: bool) -> Option<Op> {
     SV::Mat(_, r, c, _) if rng.chance(2, 3) => Expr::VarIdx(n, gen_sub(rng, *r, *c, false, false)),
     SV::Record(f) if rng.chance(1, 2) => Expr::Field(n, rng.pick(f).0.clone()),
     SV::Tuple(el) if rng.chance(1, 2) => Expr::TupElem(n, 1 + rng.usize(el.len())),
+    SV::Map(kv) if !kv.is_empty() && rng.chance(1, 2) => Expr::MapGet(n, rng.pick(kv).0.clone()),
     _ => Expr::Var(n),
   };
   Some(Op::Read { e })
